@@ -8,6 +8,9 @@ namespace detail {
 template <typename TArgs>
 class CPlanT {
 	template <typename>
+	friend class ConstControlT;
+
+	template <typename>
 	friend class ControlT;
 
 	template <typename>
@@ -30,6 +33,7 @@ class CPlanT {
 	static constexpr Long TASK_CAPACITY = Args::TASK_CAPACITY;
 
 public:
+	using Registry		= RegistryT<Args>;
 	using PlanData		= PlanDataT<Args>;
 	using Task			= typename PlanData::Task;
 	using TaskLinks		= typename PlanData::TaskLinks;
@@ -58,7 +62,8 @@ public:
 	// - - - - - - - - - - - - - - - - - - - - - - - - - - - - - - - - - - -
 
 private:
-	HFSM2_CONSTEXPR(11)	CPlanT(const PlanData& planData,
+	HFSM2_CONSTEXPR(11)	CPlanT(const Registry&,
+							   const PlanData& planData,
 							   const RegionID regionId_)				noexcept
 		: _planData{planData}
 		, _bounds{planData.taskBounds[regionId_]}
